@@ -22,11 +22,13 @@ import (
 	"testing"
 	"time"
 
+	sdkmath "cosmossdk.io/math"
 	abci "github.com/cometbft/cometbft/abci/types"
 	sdk "github.com/cosmos/cosmos-sdk/types"
 	govtypes "github.com/cosmos/cosmos-sdk/x/gov/types"
 	govv1 "github.com/cosmos/cosmos-sdk/x/gov/types/v1"
 	htlctypes "mods.irisnet.org/modules/htlc/types"
+	servicetypes "mods.irisnet.org/modules/service/types"
 	"mods.irisnet.org/simapp"
 	"pgregory.net/rapid"
 
@@ -52,7 +54,30 @@ func baseGenesisMod(app *simapp.SimApp, gs simapp.GenesisState) {
 	evp := 1 * time.Minute
 	gg.Params.ExpeditedVotingPeriod = &evp
 	gs[govtypes.ModuleName] = app.AppCodec().MustMarshalJSON(&gg)
+
+	// the definition of the random module's seed service (an application installs it at genesis), so that
+	// histories can bind providers to it and make oracle-seeded random requests
+	var sg servicetypes.GenesisState
+	app.AppCodec().MustUnmarshalJSON(gs[servicetypes.ModuleName], &sg)
+	sg.Definitions = append(sg.Definitions, servicetypes.GetRandomSvcDefinition())
+	gs[servicetypes.ModuleName] = app.AppCodec().MustMarshalJSON(&sg)
+
+	// one cross-chain asset with U1 as its deputy, so that histories contain HTLTs of both directions
+	var hg htlctypes.GenesisState
+	app.AppCodec().MustUnmarshalJSON(gs[htlctypes.ModuleName], &hg)
+	deputy := chain.MakeUsers(2)[1].Addr
+	hg.Params.AssetParams = append(hg.Params.AssetParams, htlctypes.AssetParam{
+		Denom: HtltDenom, SupplyLimit: htlctypes.SupplyLimit{Limit: sdkmath.NewInt(1_000_000_000), TimeLimited: false, TimePeriod: time.Hour, TimeBasedLimit: sdkmath.ZeroInt()},
+		Active: true, DeputyAddress: deputy.String(), FixedFee: sdkmath.NewInt(1), MinSwapAmount: sdkmath.NewInt(2), MaxSwapAmount: sdkmath.NewInt(1_000_000),
+		MinBlockLock: 50, MaxBlockLock: 100,
+	})
+	zero := sdk.NewCoin(HtltDenom, sdkmath.ZeroInt())
+	hg.Supplies = append(hg.Supplies, htlctypes.NewAssetSupply(zero, zero, zero, zero, time.Duration(0)))
+	gs[htlctypes.ModuleName] = app.AppCodec().MustMarshalJSON(&hg)
 }
+
+// HtltDenom is the cross-chain asset of the A-driver genesis; its deputy is U1.
+const HtltDenom = "htltbnb"
 
 type blockDigest struct {
 	AppHash string            `json:"app_hash"`
@@ -427,6 +452,7 @@ func (m *c11Machine) Classify() (bool, []string) {
 	if m.okTxs >= 20 {
 		cl = append(cl, "ok-txs>=20")
 	}
+	cl = append(cl, m.h.w.shapeClasses()...)
 	return mods >= 6 && m.restarts > 0 && m.okTxs >= 10, cl
 }
 
